@@ -15,7 +15,7 @@ RULE = ("stream 7: every sequence of <=K pairwise non-overlapping kernels (touch
         "is missing (dangling correlation), or the kernel carries no correlation; launch API name in {cudaLaunchKernel, "
         "cudaLaunchCooperativeKernel, cudaMemcpy, cudaGraphLaunch}; a sync record on the stream must "
         "be ignored; stream 9 empty or a fixed 2-kernel pattern; event 0 (the leading host op) early or late; "
-        "x thresholds {0,1,2,30} x stream subsets x ranks {[0],[0,1]} x file order {generated, reversed} x N1 "
+        "x thresholds {-1,0,1,2,30} x stream subsets x ranks {[0],[0,1]} x file order {generated, reversed} x N1 "
         "tie orders. non-trivial = at least two distinct categories have positive idle time")
 ASSUMPTIONS = [
     "well-formed trace, kernels of one stream do not overlap (consecutive kernels satisfy end <= next start)",
@@ -23,7 +23,7 @@ ASSUMPTIONS = [
     "an unstable sort may return rows with equal keys in any order",
 ]
 E0 = 1_000_000
-DELAYS = [0, 1, 2, 30]
+DELAYS = [0, 1, 2, 30, -1]
 
 
 def bounds(tier: str) -> Dict[str, Any]:
